@@ -148,7 +148,10 @@ def run(R):
             opts.append("--ignore-scaling")
         input_max = rng.random() < 0.1 and layout != "rgb"   # RGB + --input-max is read as one float64 channel
         if input_max:
-            opts += ["--input-max", "200"]
+            # a zero or negative upper bound is a legitimate window for negative-valued data
+            opts += [["--input-max", "200"], ["--input-min=-200", "--input-max=0"], ["--input-max", "0"],
+                     ["--input-min=-5", "--input-max=-1"], ["--input-min=0", "--input-max=0.0"]][(i // 3) % 5]
+            R.count("input-window:" + " ".join(opts[-2:] if opts[-2].startswith("--input-min") else opts[-1:]))
         sh = SHARDINGS[(i // 2) % len(SHARDINGS)] if i % 2 == 0 else None   # every string, every run
         if sh is not None:
             opts.append("--sharding=" + sh)
@@ -606,10 +609,20 @@ def run(R):
         tcases.append((m, v, exact))
     replies = R.model.batch([("nifti_to_ng", [[[fq(x) for x in row] for row in m], [fq(x) for x in v]])
                              for m, v, _e in tcases])
-    for (m, v, exact), rep in zip(tcases, replies):
+    for ti, ((m, v, exact), rep) in enumerate(zip(tcases, replies)):
         src = np.array(m)
-        impl = outcome_of(lambda: ngtransform.nifti_to_neuroglancer_transform(src, v).tolist())
-        case = {"matrix": m, "voxel_size": v, "exact": exact}
+        # the voxel size is handed over as a list, a float64 array (what nibabel's voxel_sizes returns), a tuple
+        # or a read-only array; whatever it is, it is the caller's and must come back unchanged
+        vform = ["list", "float64-array", "tuple", "readonly-array"][ti % 4]
+        varg = {"list": list(v), "float64-array": np.array(v, dtype=np.float64), "tuple": tuple(v),
+                "readonly-array": np.array(v, dtype=np.float64)}[vform]
+        if vform == "readonly-array":
+            varg.setflags(write=False)
+        impl = outcome_of(lambda: ngtransform.nifti_to_neuroglancer_transform(src, varg).tolist())
+        case = {"matrix": m, "voxel_size": v, "exact": exact, "voxel_size_given_as": vform}
+        if [float(x) for x in varg] != [float(x) for x in v]:
+            R.violation("nifti_to_neuroglancer_transform modified the voxel size it was given", case,
+                        {"now": [float(x) for x in varg]})
         R.case(case, nontrivial=True)
         R.count("nifti_to_ng:" + ("dyadic-exact" if exact else "float"))
         if impl[0] != "ok":
